@@ -362,6 +362,16 @@ class Negative(Term):
     def is_aggregate(self) -> bool | None:  # type:ignore[override]
         return self.term.is_aggregate
 
+    def nodes_(self) -> Iterator[NodeT]:
+        yield self  # type:ignore[misc]
+        yield from self.term.nodes_()
+
+    @builder
+    def replace_table(  # type:ignore[return]
+        self, current_table: "Table" | None, new_table: "Table" | None
+    ) -> "Self":
+        self.term = self.term.replace_table(current_table, new_table)
+
     def get_sql(self, ctx: SqlContext) -> str:
         term_sql = self.term.get_sql(ctx)
         if isinstance(self.term, ArithmeticExpression) or term_sql.startswith("-"):
@@ -790,7 +800,7 @@ class NestedCriterion(Criterion):
         """
         self.left = self.left.replace_table(current_table, new_table)
         self.right = self.right.replace_table(current_table, new_table)
-        self.nested = self.right.replace_table(current_table, new_table)
+        self.nested = self.nested.replace_table(current_table, new_table)
 
     def get_sql(self, ctx: SqlContext) -> str:
         sql = "{left}{comparator}{right}{nested_comparator}{nested}".format(
@@ -912,6 +922,7 @@ class ContainsCriterion(Criterion):
             A copy of the criterion with the tables replaced.
         """
         self.term = self.term.replace_table(current_table, new_table)
+        self.container = self.container.replace_table(current_table, new_table)
 
     def get_sql(self, ctx: SqlContext) -> str:
         container_ctx = ctx.copy(subquery=True)
@@ -961,6 +972,8 @@ class BetweenCriterion(RangeCriterion):
             A copy of the criterion with the tables replaced.
         """
         self.term = self.term.replace_table(current_table, new_table)
+        self.start = self.start.replace_table(current_table, new_table)
+        self.end = self.end.replace_table(current_table, new_table)
 
     def get_sql(self, ctx: SqlContext) -> str:
         # FIXME escape
